@@ -5,7 +5,10 @@
 // no-op.
 package verifhook
 
-import "context"
+import (
+	"context"
+	"sync"
+)
 
 // Yield marks a point where a test scheduler may interleave other work.
 func Yield(ctx context.Context, point string) {}
@@ -15,3 +18,7 @@ func Await(ctx context.Context, point string, ch <-chan struct{}) {}
 
 // Expose hands an otherwise unreachable object to the harness.
 func Expose(ctx context.Context, name string, v any) {}
+
+// BeforeLock is placed just before mu.Lock() where the critical section
+// contains Yield points.
+func BeforeLock(ctx context.Context, name string, mu *sync.Mutex) {}
